@@ -30,7 +30,7 @@ func (m *Machine) mkTime(ns *Term, loc Value) Struct {
 
 func (m *Machine) timeNow() Value {
 	c := m.ctx
-	t := m.fresh("clock", "u64", 64)
+	t := m.fresh("env:clock", "u64", 64)
 	if m.clock != nil {
 		m.pc = append(m.pc, c.Cmp(OSLe, m.clock, t))
 	}
@@ -244,6 +244,7 @@ type tcpModel struct {
 	eof     bool // after in is exhausted: EOF (true) or block forever (false)
 	out     []*Term
 	writes  [][]*Term
+	wvals   []Value // every Write argument as given (Slice or LSlice)
 	closed  bool
 	segTag  string
 }
@@ -256,7 +257,16 @@ func registerEnv(m *Machine) {
 		tt := m.P.namedType("net", "TCPConn")
 		cell := new(Value)
 		*cell = m.zero(tt)
-		m.tcp[cell] = &tcpModel{in: sliceTerms(a[1]), eof: true, segTag: m.concStr(a[0], "tag")}
+		var in []*Term
+		if sl, ok := a[1].(Slice); ok {
+			in = sliceTerms(sl)
+		}
+		tm := &tcpModel{in: in, eof: true, segTag: m.concStr(a[0], "tag")}
+		m.tcp[cell] = tm
+		// methods promoted from the embedded net.conn receive the address of that field
+		if st, ok := (*cell).(Struct); ok && len(st) > 0 {
+			m.tcp[&st[0]] = tm
+		}
 		return cell
 	}
 	I["vfTCPWritten"] = func(m *Machine, fr *frame, a []Value, _ *ssa.CallCommon) Value {
@@ -274,7 +284,13 @@ func registerEnv(m *Machine) {
 	I["vfTCPWriteLen"] = func(m *Machine, fr *frame, a []Value, _ *ssa.CallCommon) Value {
 		t := m.tcp[a[0].(*Value)]
 		i := int(m.concreteInt(a[1].(*Term), "write index"))
-		return c.BV(uint64(len(t.writes[i])), 64)
+		return m.lenOf(t.wvals[i])
+	}
+	// vfTCPFrame(conn, i) []byte: the i-th frame written to the connection.
+	I["vfTCPFrame"] = func(m *Machine, fr *frame, a []Value, _ *ssa.CallCommon) Value {
+		t := m.tcp[a[0].(*Value)]
+		i := int(m.concreteInt(a[1].(*Term), "write index"))
+		return t.wvals[i]
 	}
 	I["(*net.TCPConn).Read"] = func(m *Machine, fr *frame, a []Value, _ *ssa.CallCommon) Value {
 		p, _ := a[0].(*Value)
@@ -303,7 +319,7 @@ func registerEnv(m *Machine) {
 		// segmentation: the kernel may return any 1..maxn bytes
 		n := maxn
 		if m.P.Segmentation && maxn > 1 {
-			k := m.fresh(t.segTag+".seg", "int", 64)
+			k := m.fresh("env:seg:"+t.segTag, "int", 64)
 			m.pc = append(m.pc, c.Cmp(OSLe, c.BV(1, 64), k), c.Cmp(OSLe, k, c.BV(uint64(maxn), 64)))
 			n = int(m.concretize(k, "segment length"))
 		}
@@ -322,9 +338,15 @@ func registerEnv(m *Machine) {
 		if t.closed {
 			return Tuple{c.BV(0, 64), m.P.netClosedErr(m)}
 		}
+		if ls, ok := a[1].(LSlice); ok {
+			t.wvals = append(t.wvals, LSlice{Len: ls.Len, Cap: ls.Len, Head: append([]Value{}, ls.Head...)})
+			t.writes = append(t.writes, nil)
+			return Tuple{ls.Len, Iface{}}
+		}
 		bs := sliceTerms(a[1])
 		t.out = append(t.out, bs...)
 		t.writes = append(t.writes, append([]*Term{}, bs...))
+		t.wvals = append(t.wvals, termSlice(bs))
 		return Tuple{c.BV(uint64(len(bs)), 64), Iface{}}
 	}
 	nilErr := func(m *Machine, fr *frame, a []Value, _ *ssa.CallCommon) Value { return Iface{} }
@@ -340,10 +362,13 @@ func registerEnv(m *Machine) {
 	}
 	I["(*net.TCPConn).RemoteAddr"] = func(m *Machine, fr *frame, a []Value, _ *ssa.CallCommon) Value { return Iface{} }
 	I["(*net.TCPConn).LocalAddr"] = func(m *Machine, fr *frame, a []Value, _ *ssa.CallCommon) Value { return Iface{} }
+	for _, n := range []string{"Read", "Write", "SetDeadline", "SetReadDeadline", "SetWriteDeadline", "Close", "RemoteAddr", "LocalAddr"} {
+		I["(*net.conn)."+n] = I["(*net.TCPConn)."+n]
+	}
 	// randomness
 	I["crypto/rand.Read"] = func(m *Machine, fr *frame, a []Value, _ *ssa.CallCommon) Value {
 		buf := a[0].(Slice)
-		bs := m.freshBytes("rand", len(buf.V))
+		bs := m.freshBytes("env:rand", len(buf.V))
 		for i := range buf.V {
 			m.store(&buf.V[i], bs[i])
 		}
